@@ -17,6 +17,8 @@ type Op struct {
 	Key  string `json:"key,omitempty"`
 	Val  int    `json:"val,omitempty"`
 	Exp  bool   `json:"exp,omitempty"` // cache element already expired when stored
+	// Never: the element is stored with the zero deadline, which means "never expires"
+	Never bool `json:"never,omitempty"`
 }
 
 // out is the observable result of an operation.
@@ -154,6 +156,8 @@ func (s *subject) elem(op Op) *cache.Element[int] {
 	until := s.now.Add(time.Hour)
 	if op.Exp {
 		until = s.now.Add(-time.Hour)
+	} else if op.Never {
+		until = time.Time{}
 	}
 	return cache.NewElement(op.Val, until, nil)
 }
